@@ -112,9 +112,17 @@ impl<'a> Layer<'a> {
     /// Returns if this layer is visible. This requires that this layer and all
     /// of its parent layers are visible.
     pub fn is_visible(&self) -> bool {
-        let layer_is_visible = self.data().flags.contains(LayerFlags::VISIBLE);
-        let parent_is_visible = self.parent().map(|p| p.is_visible()).unwrap_or(true);
-        layer_is_visible && parent_is_visible
+        // Walk up the parent chain iteratively. Groups can be nested up to
+        // 65535 levels deep, which would overflow the stack if done recursively.
+        let mut current = Some(self.layer_id);
+        while let Some(layer_id) = current {
+            let layer = &self.file.layers[layer_id];
+            if !layer.flags.contains(LayerFlags::VISIBLE) {
+                return false;
+            }
+            current = self.file.layers.parents[layer_id as usize];
+        }
+        true
     }
 
     /// Get a reference to the Cel for this frame in the layer.
